@@ -51,7 +51,14 @@ mut("C07", "intern_key_without_caption", QT, "    key = (category, unit, unknown
 mut("C07", "eq_ignores_caption", QT, "            == tuple(other._category_to_unit_and_exps.items())\n            and self._unknown_unit_caption == other._unknown_unit_caption\n        )", "            == tuple(other._category_to_unit_and_exps.items())\n        )")
 mut("C07", "deepcopy_builds_new_instance", QT, "    def __deepcopy__(self, *args: object, **kwargs: object) -> \"Quantity\":\n        \"\"\"\n        As we're now immutable, always return itself.\n        \"\"\"\n        return self", "    def __deepcopy__(self, *args: object, **kwargs: object) -> \"Quantity\":\n        if self._is_derived:\n            return Quantity(self.GetCategoryToUnitAndExpsCopy(), None, self._unknown_unit_caption or None)\n        return Quantity(self._category, self._unit, self._unknown_unit_caption or None)")
 mut("C07", "simple_key_not_stored", QT, "    else:\n        quantities_cache[key] = quantity = Quantity(category, unit, unknown_unit_caption)\n        return quantity", "    else:\n        quantity = Quantity(category, unit, unknown_unit_caption)\n        return quantity")
-mut("C07", "create_derived_shares_callers_lists", QT, "                (category, unit_and_exp[:])\n                for (category, unit_and_exp) in category_to_unit_and_exps.items()", "                (category, unit_and_exp)\n                for (category, unit_and_exp) in category_to_unit_and_exps.items()")
+# (the former mutant "create_derived_shares_callers_lists" - _CreateDerived without `[:]` - became
+# EQUIVALENT with fix 1876ea2: Quantity.__init__ now always stores its own [unit, exp] lists.  Its
+# observable successor removes that copy in __init__ instead; the seeded change C13-d1 is the
+# two-site version.)
+mut("C07", "quantity_init_adopts_callers_lists", QT, """            self._category_to_unit_and_exps = OrderedDict(
+                (composing_category, list(unit_and_exp))
+                for (composing_category, unit_and_exp) in category.items()
+            )""", """            self._category_to_unit_and_exps = category""")
 mut("C07", "setter_silently_accepts", QT, "    def SetUnknownCaption(self, caption: str) -> NoReturn:\n        raise ReadOnlyError(\"Quantity is now read-only.\")", "    def SetUnknownCaption(self, caption: str) -> None:\n        if self._quantity_type == 'Unknown':\n            self._unknown_unit_caption = caption\n            return\n        raise ReadOnlyError(\"Quantity is now read-only.\")")
 mut("C07", "eq_order_insensitive", QT, "            tuple(self._category_to_unit_and_exps.items())\n            == tuple(other._category_to_unit_and_exps.items())", "            dict(self._category_to_unit_and_exps.items())\n            == dict(other._category_to_unit_and_exps.items())")
 mut("C07", "cache_stored_before_init", QT, "        try:\n            return quantities_cache[key_with_resolved_category]\n        except KeyError:\n            quantity = quantities_cache[key_with_resolved_category] = Quantity(\n                category, unit, unknown_unit_caption\n            )", "        try:\n            return quantities_cache[key_with_resolved_category]\n        except KeyError:\n            quantity = quantities_cache[key_with_resolved_category] = Quantity.__new__(Quantity, category, unit)\n            quantity.__init__(category, unit, unknown_unit_caption)")
